@@ -75,7 +75,7 @@ func findCurrentLastKeyInSequence(wb WriteBatch, req *proto.PutRequest) ([]strin
 		return nil, err
 	}
 
-	if errors.Is(err, ErrKeyNotFound) || !strings.HasPrefix(lastKeyInSequence, prefixKey) {
+	if errors.Is(err, ErrKeyNotFound) || !strings.HasPrefix(lastKeyInSequence, prefixKey+"-") {
 		lastKeyInSequence = ""
 	} else {
 		lastKeyInSequence = strings.TrimPrefix(lastKeyInSequence, prefixKey)
